@@ -284,7 +284,7 @@ def check(ctx: Ctx) -> list[RuleResult]:
 
     n_try = 0
     for top in xfer:
-        scope = [g for g in module_scope(ctx, top) if g is top or g.parent is top]
+        scope = [g for g in module_scope(ctx, top) if g is top or g.parent is top or (g.cls is top.cls and g.parent is None and g.name.startswith("_") and any(isinstance(c, ast.Call) and isinstance(c.func, ast.Attribute) and c.func.attr == g.name and norm(c.func.value) == "self" for c in own_nodes(top.node)))]
         io_names = {g.name for g in scope if g is not top and does_io(g)}
         for g in scope:
             for t in own_nodes(g.node):
@@ -314,8 +314,8 @@ def check(ctx: Ctx) -> list[RuleResult]:
     # iterations (a bounded `for` without an `else: raise`, a `while` whose test can turn false) is a silent "no schedule"
     r6 = RuleResult("R6", "the fetch loop ends with a schedule or an error", "the loop around the fragment requests has no normal exit other than a break under a test of the assembled schedule", min_instances=1)
     gs = repo.func(f"{S}._get_schedule")
-    io_names = {g.name for g in module_scope(ctx, gs) if g.parent is gs and does_io(g)}
-    loops = [n for n in own_nodes(gs.node) if isinstance(n, (ast.While, ast.For, ast.AsyncFor)) and any(isinstance(c, ast.Call) and ((isinstance(c.func, ast.Name) and c.func.id in io_names) or (isinstance(c.func, ast.Attribute) and c.func.attr == "async_send_cmd")) for c in ast.walk(n))]
+    io_names = {g.name for g in module_scope(ctx, gs) if (g.parent is gs or (g.cls is gs.cls and g.parent is None and g is not gs and g.name.startswith("_"))) and does_io(g)}
+    loops = [n for n in own_nodes(gs.node) if isinstance(n, (ast.While, ast.For, ast.AsyncFor)) and any(isinstance(c, ast.Call) and ((isinstance(c.func, ast.Name) and c.func.id in io_names) or (isinstance(c.func, ast.Attribute) and (c.func.attr == "async_send_cmd" or (norm(c.func.value) == "self" and c.func.attr in io_names)))) for c in ast.walk(n))]
     if not loops:
         raise AnalysisError("_get_schedule: the fragment request loop was not found")
     for lp in loops:
